@@ -441,6 +441,22 @@ var c01Positions = []struct {
 			{Vals: []ref.Expr{&ref.Lit{V: ref.Bool(true)}, &ref.Lit{V: ref.Null}, &ref.Lit{V: ref.Float(2.5)}}, Body: []ref.Node{&ref.Raw{Text: "hit2"}}}}
 		return []ref.Node{&ref.Switch{E: e, Cases: cases, HasDef: true, Default: []ref.Node{&ref.Raw{Text: "dflt"}}}}
 	}},
+	{"switch-many", func(e ref.Expr, v ref.Value, st ref.Status) []ref.Node {
+		// a dozen cases of literal values (the operand classes and what the operators make of them: 7 / 7 is the float 1.0
+		// and selects {case 1})
+		vals := []ref.Value{ref.Int(0), ref.Int(1), ref.Int(2), ref.Int(7), ref.Int(-3), ref.Int(49), ref.Int(14), ref.Str("abc"), ref.Str(""), ref.Bool(true), ref.Bool(false), ref.Null, ref.Float(2.5), ref.Int(-6), ref.Str("42"), ref.Int(42)}
+		var cases []ref.SwitchCase
+		for k := 0; k < len(vals); k += 2 {
+			c := ref.SwitchCase{Vals: []ref.Expr{&ref.Lit{V: vals[k]}}, Body: []ref.Node{&ref.Raw{Text: fmt.Sprintf("c%d", k)}}}
+			if k%4 == 0 {
+				c.Vals = append(c.Vals, &ref.Lit{V: vals[k+1]})
+			} else {
+				cases = append(cases, ref.SwitchCase{Vals: []ref.Expr{&ref.Lit{V: vals[k+1]}}, Body: []ref.Node{&ref.Raw{Text: fmt.Sprintf("c%d", k+1)}}})
+			}
+			cases = append(cases, c)
+		}
+		return []ref.Node{&ref.Switch{E: e, Cases: cases, HasDef: true, Default: []ref.Node{&ref.Raw{Text: "dflt"}}}}
+	}},
 	{"case", func(e ref.Expr, v ref.Value, st ref.Status) []ref.Node {
 		return []ref.Node{&ref.Switch{E: &ref.Lit{V: ref.Int(7)}, Cases: []ref.SwitchCase{{Vals: []ref.Expr{&ref.Lit{V: ref.Int(99)}, e}, Body: []ref.Node{&ref.Raw{Text: "eq7"}}}}, HasDef: true, Default: []ref.Node{&ref.Raw{Text: "ne7"}}}}
 	}},
